@@ -2,8 +2,8 @@
    model/Program.v.  NO proofs here.
 
    Models the code WITH the repair fixes/D4.patch (trap lines that are not renumbered keep their number:
-   old_to_new.get(line, line)) and fixes/D13a.patch (skip_to: a REM byte inside a string literal is a
-   character).
+   old_to_new.get(line, line)); skip_to as of /repo commit 22fc0dbb (a REM byte inside a string literal is
+   a character).
 
    The three passes of Program.renum:
      1. guards + assignment of old_to_new over the sorted keys >= start
